@@ -222,6 +222,22 @@ class Monitor(object):
             return 'an exception escaped from finish() of a listener'
         if self.w.discard_log_mismatch:
             return 'number of error-level log lines differs from the number of discarded events plus write errors'
+        # ---- a BUSY listener whose answer does not start with the header "RESULT <digits>\\n" violates the
+        #      protocol: its event goes back to the pool (never acknowledged) and the listener is UNKNOWN
+        if op[0] == 'feed' and effs != ['EInapplicable'] and getattr(self, 'pre_disp', None) == (b'', None) \
+                and op[1] < len(pre) and op[2] < len(pre[op[1]][2]):
+            import re
+            from c10_env import EventListenerStates as _LS2
+            st0 = pre[op[1]][2][op[2]]
+            data = bytes(op[3])
+            if st0[1] == _LS2.BUSY and st0[2] is not None and b'\n' in data \
+                    and not re.fullmatch(rb'RESULT [0-9]+', data.split(b'\n')[0]):
+                st1 = post[op[1]][2][op[2]]
+                if any(x.startswith('EAcked') for x in effs) or st1[1] != _LS2.UNKNOWN or \
+                        not any(x.startswith('ERejected %d %d' % (op[1], op[2])) for x in effs):
+                    return ('listener %d/%d answered with the malformed header %r: its event must return to the pool and '
+                            'the listener become UNKNOWN; effects were %r, listener state %r'
+                            % (op[1], op[2], data.split(b'\n')[0], [x.split()[0] for x in effs], st1[1]))
         # ---- a main-loop pass over a pool with a queued event and a RUNNING+READY listener tries to send it,
         #      wherever in the pool that listener is and whatever state the others are in
         if op[0] == 'transition' and op[1] < len(pre) and effs != ['EInapplicable']:
@@ -293,6 +309,11 @@ def run_history(cfgs, ops, hk, gserial, maxdig, strip=False, partial=False):
             p = w.pools[op[1]].procs[op[2]]
             pre_state = 'unknown' if p.state == ProcessStates.UNKNOWN else \
                 ('stopping' if p.killing else ('starting' if p.state == ProcessStates.STARTING else 'running'))
+        mon.pre_disp = None
+        if op[0] == 'feed' and op[1] < len(w.pools) and op[2] < len(w.pools[op[1]].procs):
+            d0 = w.pools[op[1]].stdout_disp(w.pools[op[1]].procs[op[2]])
+            if d0 is not None:
+                mon.pre_disp = (d0.state_buffer, d0.resultlen)
         v0 = w.next_vid
         effs = w.apply(op)
         new = list(range(v0, w.next_vid))
@@ -408,6 +429,7 @@ def _run(chk, wd, proved):
         alpha.append(['feed', pi, 0, b'RESULT 2\nOKREADY\n'])
         alpha.append(['feed', pi, 0, b'RESULT 4\nFAILREADY\n'])
     alpha.append(['feed', 0, 0, b'garbage'])
+    alpha.append(['feed', 0, 0, b'XXXXXXX2\nOKREADY\n'])   # header wrong only in its first 7 bytes
     alpha.append(['feed', 0, 1, b'garbage'])      # the last listener of a two-listener pool leaves the protocol
     alpha.append(['finish', 0, 0, b'', B])
     alpha.append(['stopfail', 0, 0])
@@ -545,6 +567,39 @@ def _run(chk, wd, proved):
                                    'case': {'family': 'partial', 'pools': [list(c) for c in cfgs], 'handler': 0, 'gserial': -1,
                                             'strip_ansi': False, 'ops': _js(ops)}, 'monitor': verdict})
 
+    # ---- configuration comparison (what reread/update uses to find changed pools): two pool configurations that
+    #      differ in one attribute only must compare unequal, and the real Supervisor.diff_to_active() must report
+    #      the running pool as changed - else it keeps its old buffer_size / subscriptions / handler
+    from c10_env import EventListenerPoolConfig as _PC, listener_config as _lc, events as _ev2, sdisp as _sd, fresh_world as _fw
+    from supervisor.supervisord import Supervisor as _Sup
+    base_kw = dict(name='pool', priority=999, buffer_size=10, pool_events=[_ev2.TickEvent], result_handler=_sd.default_handler)
+
+    def mk(o, **kw):
+        a = dict(base_kw)
+        a.update(kw)
+        return _PC(o, a['name'], a['priority'], [_lc(o, 'l0', 999)], a['buffer_size'], list(a['pool_events']), a['result_handler'])
+    variants = [('buffer_size', dict(buffer_size=1)), ('pool_events', dict(pool_events=[_ev2.TickEvent, _ev2.ProcessStateEvent])),
+                ('result_handler', dict(result_handler=env_test_handler())), ('priority', dict(priority=5)), ('name', dict(name='other'))]
+    for what, kw in variants:
+        o = _fw()
+        old_c, same_c, new_c = mk(o), mk(o), mk(o, **kw)
+        chk.dist('config')
+        if old_c != same_c or not (old_c == same_c):
+            chk.violation({'kind': 'two identical pool configurations compare unequal', 'attribute': what})
+        sup = _Sup(o)
+        sup.process_groups = {old_c.name: old_c.make_group()}
+        o.process_group_configs = [new_c]
+        added, changed, removed = sup.diff_to_active()
+        reported = bool(changed) or (what == 'name' and bool(added) and bool(removed))
+        if old_c == new_c or not reported:
+            chk.violation({'kind': 'a pool configuration that differs only in %s is not reported as changed' % what,
+                           'old': {k: repr(v) for k, v in base_kw.items()}, 'new': {k: repr(v) for k, v in kw.items()},
+                           'configs_compare_equal': old_c == new_c,
+                           'diff_to_active': [len(added), len(changed), len(removed)],
+                           'consequence': 'reread/update leaves the running pool as it is: e.g. it keeps its old buffer_size '
+                                          'and holds more undelivered events than configured, without an overflow error'})
+        _ev2.clear()
+
     # ---- random histories
     def rand_cfgs():
         n = rng.choice([1, 2, 2, 3])
@@ -579,6 +634,7 @@ def _run(chk, wd, proved):
             elif r < 0.55:
                 ops.append(['feed', pi, i, rng.choice([b'READY\n', b'RESULT 2\nOK', b'RESULT 2\nOKREADY\n', b'RESULT 4\nFAIL',
                                                         b'RESULT 4\nFAILREADY\n', b'garbage', b'RESULT x\n', b'RESULT 2\n',
+                                                        b'result 2\nOK', b'RESULT:2\nOK', b'XXXXXXX2\nOKREADY\n', b'RESULt 2\nOK',
                                                         b'OK', b'!X', b'RESULT 2\n!X', b'RESULT 0\n', b''])])
             elif r < 0.72:
                 wss = [[rng.choice([B, B, B, B, ['again'], ['epipe'], ['err']]) for _ in range(cfgs[pi][2])] for _ in range(4)]
@@ -676,6 +732,11 @@ def _run(chk, wd, proved):
     cov['samples'] = [meta[0], meta[n_exh + 1] if len(meta) > n_exh + 1 else meta[-1], meta[-1]]
     chk.note('%d histories compared in Coq; build+implementation runs %.0fs, model evaluation %.0fs; %d subtype pairs, '
              '%d event names, %d subscription lists' % (len(cases), t_gen, t_coq, len(sub_cases), len(name_cases), len(dd_cases)))
+
+
+def env_test_handler():
+    import c10_env
+    return c10_env.test_handler
 
 
 class _Opts(object):
